@@ -236,6 +236,17 @@ def part_cf(rep, tier, seed, layouts):
             body += [{"k": "M", "i": k}, {"k": "CALL", "f": "f%d" % k, "args": [], "d": ""}]
             exp.append([mc.shown(v, "i32") for v in c["out"]])
             ks.append("cf " + " ".join(k + (":" + n if n not in ("", "y") or (n and "z" in c["ns"]) else "") for k, n in zip(c["b"], c["ns"])))
+        if (start // PACK) % 2 == 1:
+            # every other pack: each function stands behind an UNCALLED function that never returns (its last statement is a
+            # block that loops for ever: the text ends in dead code).  What is never called has no behaviour: the expected
+            # output is the same (thirteenth round, C01k: generator state left behind by the end of one function)
+            spun = []
+            for k, f in enumerate(fns):
+                spun.append({"name": "spin%d" % k, "params": [], "ret": mc.VOID,
+                             "body": [{"k": "V", "x": "n", "ty": mc.prim("i32"), "e": mc.lit("i32", [0, 0, 0, 0])},
+                                      {"k": "O"}, cf_item("INC", 0), {"k": "LP"}, {"k": "C"}]})
+                spun.append(f)
+            fns = spun
         programs.append(mc.program([mc.main_fn(body)] + fns))
         expected.append(exp)
         keys.append(ks)
